@@ -44,6 +44,13 @@ def evaluate(op, schemas, value, extra):
         return fingerprint(lambda: represent(schemas[0]))
     if op == "make-required":
         return fingerprint(lambda: make_required(schemas[0]))
+    if op == "invert":
+        from d42.generation import Random
+
+        def gen():
+            Random().set_seed(extra)
+            return ~schemas[0]
+        return fingerprint(gen)
     if op == "eq":
         return fingerprint(lambda: (schemas[0] == schemas[1], schemas[0] != schemas[1]))
     raise ValueError(op)
